@@ -118,6 +118,8 @@ def correspond(rep, r, n, maxlen=14):
         [("A", 1, 0, 0, 0), ("A", 2, 1, 1, 1), ("A", 3, 2, 0, 0), ("A", 4, 3, 0, 0), ("L", 1, 4)],
         [("A", 1, 0, 0, 0), ("A", 2, 1, 1, 2), ("A", 3, 2, 0, 0), ("A", 4, 3, 1, 1), ("A", 5, 4, 0, 0), ("A", 6, 5, 1, 3), ("L", 5, 1), ("L", 3, 3)],
         [("B", 1, 0, 0, 0), ("B", 2, 0, 0, 0), ("B", 3, 1, 0, 0), ("D", 3), ("D", 2), ("D", 1), ("A", 4, 0, 0, 0)],
+        # SwapLines whose other chunk is the newline of a blank line while the first line opens the list: its final Swap meets the first chunk, a chunk is lost
+        [("A", 1, 0, 0, 0), ("A", 2, 1, 1, 1), ("A", 3, 2, 1, 2), ("L", 1, 3)],
     ]
     for ops in fixed:
         exp = []
